@@ -164,8 +164,8 @@ type World struct {
 
 	mu sync.Mutex // protects bookkeeping touched from storage hooks
 
-	mem database.Database
-	gen *serverGen
+	mem  database.Database
+	gen  *serverGen
 	gens int
 
 	rpcSeq   int
